@@ -90,8 +90,8 @@ M = [
  ('dc-poly-scale', 'direct_collocation.py', "            S = 1/repmat(hcat([dt**i for i in range(self.degree + 1)]), self.degree + 1, 1)", "            S = 1/repmat(hcat([(dt*self.M)**i for i in range(self.degree + 1)]), self.degree + 1, 1)", ['C08']),
  ('euler-poly', 'sampling_method.py', '        poly_coeff = hcat([X, k["ode"]])', '        poly_coeff = hcat([X, k["ode"]*DT/DT_control])', ['C08']),
  # --- C16
- ('der-drops-dt', 'stage.py', 'vertcat(ode(x=self.x, u=self.u, z=self.z, p=vertcat(self.p, self.v), t=self.t)["ode"], 1, *der_symbols))', 'vertcat(ode(x=self.x, u=self.u, z=self.z, p=vertcat(self.p, self.v), t=self.t)["ode"], 0, *der_symbols))', ['C16']),
- ('der-ode-at-t0', 'stage.py', '                return jtimes(expr, self.x, ode(x=self.x, u=self.u, z=self.z, p=vertcat(self.p, self.v), t=self.t)["ode"])', '                return jtimes(expr, self.x, ode(x=self.x, u=self.u, z=self.z, p=vertcat(self.p, self.v), t=0)["ode"])', ['C16']),
+ ('der-drops-dt', 'stage.py', 'vertcat(xdot(ode(x=self.x, u=self.u, z=self.z, p=vertcat(self.p, self.v), t=self.t)), 1, *der_symbols))', 'vertcat(xdot(ode(x=self.x, u=self.u, z=self.z, p=vertcat(self.p, self.v), t=self.t)), 0, *der_symbols))', ['C16']),
+ ('der-ode-at-t0', 'stage.py', '                return jtimes(expr, x, xdot(ode(x=self.x, u=self.u, z=self.z, p=vertcat(self.p, self.v), t=self.t)))', '                return jtimes(expr, x, xdot(ode(x=self.x, u=self.u, z=self.z, p=vertcat(self.p, self.v), t=0)))', ['C16']),
  ('chain-order', 'stage.py', "            helper_u = self.control(n_rows=n_rows, n_cols=n_cols, order=order - 1, scale=scale)", "            helper_u = self.control(n_rows=n_rows, n_cols=n_cols, order=max(order - 2,0), scale=scale)", ['C16']),
  # --- C10
  ('guess-column-shift', 'sampling_method.py', "                    kk = k if k>=0 else value.shape[1]//c-1\n", "                    kk = max(k-1,0) if k>=0 else value.shape[1]//c-1\n", ['C10']),
@@ -130,7 +130,7 @@ M = [
  ('clone-signal-derivative-unlinked', 'stage.py', "                ret._signals[symbol].derivative = ret._signals[signal.derivative.symbol]", "                pass", ['C17']),
  ('signal-fraction-at-integrator', 'sampling_method.py', "signals=(self.signals, self.get_signals_at_fraction(stage, k, i/self.M)),", "signals=(self.signals, self.get_signals_at_fraction(stage, k, 0)),", ['C17']),
  ('signal-fraction-at-root', 'sampling_method.py', "signals=(self.signals, self.get_signals_at_fraction(stage, k, (i+float(self.tau[j]))/self.M)),", "signals=(self.signals, self.get_signals_at_fraction(stage, k, i/self.M)),", ['C17']),
- ('gist-greville-degree', 'sampling_method.py', "        G = get_greville_points(self.xi, s.degree)\n        return self.t0+G*self.T, (J[:,deps] @ s.coeff)+b", "        G = get_greville_points(self.xi, max(s.degree-1, 1))\n        return self.t0+G*self.T, (J[:,deps] @ s.coeff)+b", ['C17']),
+ ('gist-greville-degree', 'sampling_method.py', "                G = get_greville_points(self.xi, s.degree)\n                return self.t0+G*self.T, (J[:,deps] @ s.coeff[rows,:])+b", "                G = get_greville_points(self.xi, max(s.degree-1, 1))\n                return self.t0+G*self.T, (J[:,deps] @ s.coeff[rows,:])+b", ['C17']),
  ('dc-signal-guess-dropped', 'direct_collocation.py', "                if var in self.signals:\n                    target = stage.sample(var,'gist')[1]\n                    opti.set_initial(target, ca.repmat(value,1,target.shape[1]), cache_advanced=True)\n", "", ['C17']),
  ('save-keeps-substage-copies', 'ocp.py', "            for s in self.iter_stages():\n                s._var_augmented = None\n", "", ['C18']),
  ('quad-state-not-signal', 'stage.py', "vertcat(self.x, self.xq, self.u, self.z, self.t, self.DT, self.DT_control,", "vertcat(self.x, self.u, self.z, self.t, self.DT, self.DT_control,", ['C04']),
